@@ -80,4 +80,6 @@ const (
 	FailedToComputeScannersHash                         = "failed to compute the scanner's hash"
 
 	ThereIsNoDirectiveForOpening = "there is no directive to open with this opening parenthesis, learn more about the explicit direcitve boundaries here: https://jsight.io/docs/jsight-api-0-3#boundaries-of-the-body-of-the-directive" //nolint:lll
+
+	IncludeEmptyErr = "cannot be empty"
 )
